@@ -233,7 +233,8 @@ class OriginAnalysis:
         """Returns (returned value, heap at the normal exits)."""
         self.functions_seen.add(fi.qual)
         w = _Walker(self, fi)
-        w.run(fi.node, env)
+        from .normalize import unroll_constant_loops
+        w.run(unroll_constant_loops(self.tree, fi), env)
         out_env = join_all(w.exit_envs)
         return frozenset(w.returned), (out_env.heap if out_env is not None else env.heap)
 
